@@ -20,11 +20,19 @@ package stat
 //@ requires len(x) >= 1 && (weights == nil || len(weights) == len(x))
 //@ writes nothing
 //@ ensures exists(k, 0, len(x), same(result, x[k]))
+// in exact arithmetic, without weights: the result is the ceil(p*n)-th order
+// statistic (the least k with k+1 >= p*n)
+//@ ensures [real] weights == nil && sumWeights == float64(len(x)) && p <= 1 ==> exists(k, 0, len(x), result == x[k] && float64(k+1) >= p*sumWeights && (k == 0 || float64(k) < p*sumWeights))
+//@ loop 1: invariant [real] weights == nil ==> cumsum == float64(it)
+//@ invariant [real] it > 0 ==> cumsum < fidx
 
 //@ func linInterpQuantile props: C10
 //@ floats: ieee
 //@ requires len(x) >= 1 && (weights == nil || len(weights) == len(x))
 //@ writes nothing
+// in exact arithmetic the interpolated quantile lies within the data range
+//@ ensures [real] forall(k, 0, len(x), x[0] <= x[k] && x[k] <= x[len(x)-1]) && p >= 0 && sumWeights >= 0 && (weights == nil || forall(k, 0, len(x), weights[k] >= 0)) ==> x[0] <= result && result <= x[len(x)-1]
+//@ loop 1: invariant [real] it > 0 ==> cumsum < fidx
 
 // Quantile never fails for p in [0,1] on sorted (or NaN-containing) data.
 
@@ -34,9 +42,30 @@ package stat
 //@ panics iff !valid, before-writes
 //@ writes nothing
 
+// in exact arithmetic: without weights the empirical quantile is the ceil(p*n)-th
+// order statistic; with non-negative weights (or none) both kinds lie within
+// the data range
+//@ ensures [real] c == Empirical && weights == nil ==> exists(k, 0, len(x), result == x[k] && float64(k+1) >= p*float64(len(x)) && (k == 0 || float64(k) < p*float64(len(x))))
+//@ ensures [real] weights == nil || forall(k, 0, len(x), weights[k] >= 0) ==> x[0] <= result && result <= x[len(x)-1]
+
 //@ func CDF props: C10
 //@ floats: ieee
 //@ valid (weights == nil || len(x) == len(weights)) && (hasNaN(x) || (len(x) > 0 && sortedFloats(x) && (isNaN(q) || q < x[0] || q >= x[len(x)-1] || c == Empirical)))
 //@ panics iff !valid, before-writes
 //@ writes nothing
 //@ loop 1: invariant forall(k, 0, it, !(x[k] > q))
+// in exact arithmetic, without weights: the fraction of samples <= q
+//@ ensures [real] weights == nil ==> forall(k, 0, len(x), x[k] <= q ==> result >= float64(k+1)/float64(len(x)))
+//@ ensures [real] weights == nil ==> forall(k, 0, len(x), x[k] > q ==> result <= float64(k)/float64(len(x)))
+//@ ensures [real] weights == nil ==> 0 <= result && result <= 1
+//@ loop 1: invariant [real] weights == nil ==> w == float64(it)
+
+// CDF(Quantile(p)) >= p (unweighted, empirical), from the two contracts: Quantile
+// returns x[k] with k+1 >= p*n, and CDF(x[k]) >= (k+1)/n.
+//@ lemma cdf_of_quantile props: C10
+//@ floats: real
+//@ var n int, k int, p float64, r float64
+//@ hyp n >= 1 && 0 <= k && k < n
+//@ hyp float64(k+1) >= p*float64(n)
+//@ hyp r >= float64(k+1)/float64(n)
+//@ goal r >= p
